@@ -301,6 +301,12 @@ def fold_bool(c):
         return parts[0] if len(parts) == 1 else (h,) + tuple(parts)
     if h == "call" and c[1] == "isinstance" and len(c) == 4 and c[2][0] == "str" and c[3] == ("sym", "str"):
         return ("bool", True)
+    if h == "call" and c[1] == "isinstance" and len(c) == 4 and c[2][0] in ("angle", "epoch"):
+        kind = {"angle": "Angle", "epoch": "Epoch"}[c[2][0]]
+        tys = c[3][1:] if c[3][0] == "tuple" else (c[3],)
+        names = [x[1].split(".")[-1] for x in tys if x[0] == "sym"]
+        if len(names) == len(tys):
+            return ("bool", kind in names)
     return c
 
 
